@@ -17,7 +17,7 @@ case = {"mode": "inline"|"threaded", "sched": {"base": 0|1, "gaps": [[gap, v]...
         ("order" may also hold ["start", i] -- start() of a started=False timer -- and ["advance", seconds])
         "fds":    [{"r_at": s|None, "w_at": s|None}],
         "socks":  [{"arrivals": [[s, nbytes]...], "w_at": s, "sends": ["all"|k|0|"eagain"...]}]}
-op   = {"op": "y0"|"yn"|"sleep"|"select"|"recv"|"send"|"rfop"|"block"|"call"|"acquire"|"release"|"quit"|"raise"|"exit"
+op   = {"op": "y0"|"yn"|"sleep"|"select"|"recv"|"send"|"rfop"|"badop"|"block"|"call"|"acquire"|"release"|"quit"|"raise"|"exit"
               |"busy"|"wake"|"cancel"|"mktimer"|"starttimer", ...}   (the last five are in-step actions, they do not yield)
 """
 import itertools
@@ -54,6 +54,8 @@ ASSUMPTIONS = [
   "init-time timers are registered from a third (main) thread while the scheduler already runs",
   "lateness is judged only as 'virtual time passed although something requested was due / ready / runnable' (i.e. it needed the "
   "CYCLE_MAXIMUM poll or another thread's timeout to be noticed) or 'never resumed'; who runs first at one instant is never judged",
+  "a blocking operation whose execute() raises is generated in top-level tasks only (in a sub-task it de-schedules the AgainTask and the "
+  "caller stays blocked -- observed on the unchanged tree, not judged)",
   "two tasks that Recv on one socket: the loser of the race may get None (EAGAIN) without a timeout",
   "the raise-vs-end twin comparison is skipped for deviating thread schedules (decision indices of the two runs need not line up)",
   "the virtual select returns exactly the descriptors among those passed that are ready; select.epoll is replaced by a fake below the real EpollSelect",
@@ -68,7 +70,11 @@ EXHAUSTIVE_SCOPE = {
   "quick": "all ordered pairs of programs of length 1..2 over {yield 0, yield .25, Sleep(.5), Sleep(absolute), Select([],[],[],.25), yield False, wake, "
            "sub-task call, busy .5, raise}; timer grid (t, one-shot/recurring/absolute, self-stop, return scripts, cancel instants, companion work); "
            "descriptor grid (2 fds x ready instants x timeouts x two selecting tasks x select/epoll); "
-           "return-function grid (a scripted BlockingOperation: 0-2 ABORTs then value / falsy values / task.re + EXCEPTION, immediate or via the hub, "
+           "hub-window grid (threaded hub, 2 scenarios: every pair of deviations 'scheduler thread pre-empted inside a registration in favour of "
+           "the hub thread' x 'hub thread pre-empted at a line of SelectHub._select in favour of the scheduler thread'); failing-operation grid "
+           "(a blocking operation whose execute() raises -- harness op and Lock.release() of a free lock -- after 9 slice prefixes incl. "
+           "acquire / try-acquire / acquire+release in the same slice, both hub modes); "
+           "return-function grid (a scripted BlockingOperation: 0-2 ABORTs / installs of a different ReturnFunction then value / falsy values / task.re + EXCEPTION, immediate or via the hub, "
            "in a task and in a sub-task, both hub modes); raise grid (Exception vs non-Exception BaseException raised by a task, a sub-task "
            "(caught / uncaught / nested / Task(target=)), a one-shot and a recurring timer callback x 10 companion programs, both hub modes); poll grid (Select with/without fds, Recv, Send with timeout exactly 0 / 0.0 x fd and socket readiness x other work x select/epoll x "
            "inline/threaded); deferred-timer grid (Timer(started=False) one-shot/recurring/absolute, start() after .125/.375/.75 s from a task "
@@ -271,15 +277,31 @@ def _enum_rf(tier):
   """recoco's ReturnFunction protocol (task.rf / ABORT / task.re + EXCEPTION) through a scripted blocking operation."""
   others = [[{"op": "y0"}, {"op": "y0"}], [{"op": "yn", "n": 0.25}], [{"op": "busy", "d": 0.5}]]
   for mode in ("inline", "threaded"):
-    for aborts in (0, 1, 2):
+    for pre in ([], ["abort"], ["abort", "abort"], ["chain"], ["chain", "abort"], ["abort", "chain"], ["chain", "chain"]):
       for fin in ({"v": "token"}, {"v": 0}, {"v": None}, {"v": False}, "exc"):
         for delay in (0, 0.25):
           for catch in ((True, False) if fin == "exc" else (True,)):
-            op = {"op": "rfop", "script": ["abort"] * aborts + [fin], "delay": delay, "catch": catch}
+            op = {"op": "rfop", "script": pre + [fin], "delay": delay, "catch": catch}
             for other in others:
               yield {"mode": mode, "horizon": 4, "tasks": [{"prog": [op, {"op": "y0"}, op]}, {"prog": other}]}
               yield {"mode": mode, "horizon": 4, "tasks": [{"prog": [{"op": "call", "sub": _sub([op, {"op": "sleep", "n": 0.125}])}, {"op": "y0"}]},
                                                            {"prog": other}]}
+
+
+def _enum_failing_ops(tier):
+  """A blocking operation whose execute() raises de-schedules the task, wherever in a slice it comes."""
+  acq, tryacq, rel = {"op": "acquire", "lock": 0}, {"op": "acquire", "lock": 0, "blocking": False}, {"op": "release", "lock": 0}
+  pre = [[], [{"op": "y0"}], [acq], [tryacq], [acq, rel], [acq, {"op": "y0"}], [acq, tryacq], [{"op": "yn", "n": 0.125}, acq, rel],
+         [{"op": "acquire", "lock": 1}, acq]]
+  for mode in ("inline", "threaded"):
+    for how in ("raise", "release-unheld"):
+      bad = {"op": "badop", "how": how, "lock": 1 if how == "release-unheld" else 0}
+      for p in pre:
+        if how == "release-unheld" and any(o.get("lock") == 1 for o in p):
+          continue
+        for other in ([{"op": "y0"}, {"op": "y0"}], [{"op": "yn", "n": 0.25}, acq, rel], [tryacq, {"op": "sleep", "n": 0.25}]):
+          yield {"mode": mode, "horizon": 4, "locks": 2,
+                 "tasks": [{"prog": p + [bad, {"op": "y0"}, {"op": "yn", "n": 0.25}]}, {"prog": other}]}
 
 
 def _enum_raises(tier):
@@ -384,6 +406,38 @@ def _enum_preempt(tier):
           yield dict(base, sched={"devs": [[k, v] for k, v in sorted(devs.items())]})
 
 
+_WSCN = [
+  {"horizon": 4, "tasks": [{"prog": [{"op": "yn", "n": 0.25}, {"op": "y0"}]}, {"prog": [{"op": "yn", "n": 0.5}, {"op": "y0"}]}]},
+  {"horizon": 4, "fds": [{"r_at": 0.25}],
+   "tasks": [{"prog": [{"op": "sleep", "n": 0.25}]}, {"prog": [{"op": "select", "r": [0], "t": None}, {"op": "y0"}]}]},
+]
+_REG_SITES = ("SelectHub.registerSelect", "SelectHub.registerTimer", "SelectHub._cycle", "Sleep.execute", "Select.execute")
+
+
+def _enum_hub_window(tier):
+  """Registrations that overlap a wake-up of the hub thread: first the scheduler's thread is pre-empted in favour of the hub
+  thread somewhere in / after a registration (deviation A), then the hub thread is pre-empted at one of the lines of
+  SelectHub._select in favour of the scheduler's thread, which goes on registering the next wait (deviation B).
+  All such pairs (A, B) of two small scenarios."""
+  setup()
+  for scn in _WSCN:
+    base = dict(scn, mode="threaded")
+    d0 = _VS.probe_decisions(dict(base, sched={}))
+    if len(d0) > 4000:
+      continue
+    for a in d0:
+      if a["kind"] != "line" or not a["thread"].endswith("(run)") or not a["site"].startswith(_REG_SITES):
+        continue
+      for va in range(1, a["n"]):
+        d1 = _VS.probe_decisions(dict(base, sched={"devs": [[a["k"], va]]}))
+        if len(d1) > 4000 or len(d1) <= a["k"] or not d1[a["k"]]["to"].endswith("(_threadProc)"):
+          continue
+        for b in d1[a["k"] + 1:a["k"] + 120]:
+          if b["kind"] == "line" and b["thread"].endswith("(_threadProc)") and b["site"].startswith("SelectHub._select"):
+            for vb in range(1, b["n"]):
+              yield dict(base, sched={"devs": [[a["k"], va], [b["k"], vb]]})
+
+
 def _enum_locks(tier):
   v = [{"op": "acquire", "lock": 0}, {"op": "acquire", "lock": 0, "blocking": False}, {"op": "release", "lock": 0},
        {"op": "y0"}, {"op": "yn", "n": 0.25}]
@@ -427,8 +481,9 @@ def _strategy(tier, mode="inline"):
   ret = st.sampled_from(["end", {"v": "token"}, {"v": "token"}, {"v": 0}, {"v": False}, {"v": None}, {"v": ""}, {"raise": 1}, {"raise": 1},
                          {"raise": 1, "base": True}])
   rf_final = st.sampled_from([{"v": "token"}, {"v": "token"}, {"v": 0}, {"v": None}, {"v": False}, {"v": ""}, "exc", "exc"])
-  rfop = st.builds(lambda ab, fin, delay, catch: {"op": "rfop", "script": ["abort"] * ab + [fin], "delay": delay, "catch": catch},
-                   st.sampled_from([0, 0, 1, 2]), rf_final, st.sampled_from([0, 0, 0.125, 0.25]), st.sampled_from([True, True, True, False]))
+  rfop = st.builds(lambda ab, fin, delay, catch: {"op": "rfop", "script": list(ab) + [fin], "delay": delay, "catch": catch},
+                   st.sampled_from([[], [], ["abort"], ["chain"], ["abort", "abort"], ["chain", "abort"], ["abort", "chain"], ["chain", "chain"]]),
+                   rf_final, st.sampled_from([0, 0, 0.125, 0.25]), st.sampled_from([True, True, True, False]))
 
   def subs(depth):
     inner = [sleep_rel, sel_t, busy, recv, send, sel_fd, rfop]
@@ -448,6 +503,7 @@ def _strategy(tier, mode="inline"):
     st.fixed_dictionaries({"op": st.just("wake"), "task": idx}),
     st.fixed_dictionaries({"op": st.just("wake"), "task": idx}),
     call(1), call(1), rfop,
+    st.fixed_dictionaries({"op": st.just("badop"), "how": st.sampled_from(["raise", "release-unheld"]), "lock": st.integers(0, 1)}),
     st.fixed_dictionaries({"op": st.just("acquire"), "lock": st.integers(0, 1), "blocking": st.booleans()}),
     st.fixed_dictionaries({"op": st.just("release"), "lock": st.integers(0, 1)}),
     busy,
@@ -518,10 +574,12 @@ def plan(tier):
       Enum("polls", lambda: _enum_polls("quick"), shards=8),
       Enum("return-functions", lambda: _enum_rf("quick"), shards=4),
       Enum("raises", lambda: _enum_raises("quick"), shards=4),
+      Enum("failing-ops", lambda: _enum_failing_ops("quick"), shards=2),
       Enum("timers-deferred", lambda: _enum_deferred("quick"), shards=4),
       Hyp("programs", lambda: _strategy("quick"), examples=3200, shards=16),
       Enum("threaded-grid", lambda: _enum_threaded("quick"), shards=8),
       Enum("threaded-preempt", lambda: _enum_preempt("quick"), shards=8),
+      Enum("threaded-hub-window", lambda: _enum_hub_window("quick"), shards=8),
       Hyp("threaded-programs", lambda: _strategy("quick", "threaded"), examples=800, shards=8),
     ]
   return [
@@ -532,9 +590,11 @@ def plan(tier):
     Enum("polls", lambda: _enum_polls("thorough"), shards=16),
     Enum("return-functions", lambda: _enum_rf("thorough"), shards=8),
     Enum("raises", lambda: _enum_raises("thorough"), shards=8),
+    Enum("failing-ops", lambda: _enum_failing_ops("thorough"), shards=4),
     Enum("timers-deferred", lambda: _enum_deferred("thorough"), shards=8),
     Hyp("programs", lambda: _strategy("thorough"), examples=300000, shards=16),
     Enum("threaded-grid", lambda: _enum_threaded("thorough"), shards=16),
     Enum("threaded-preempt", lambda: _enum_preempt("thorough"), shards=16),
+    Enum("threaded-hub-window", lambda: _enum_hub_window("thorough"), shards=16),
     Hyp("threaded-programs", lambda: _strategy("thorough", "threaded"), examples=40000, shards=16),
   ]
